@@ -135,6 +135,7 @@ func runC19(r *engine.Run) {
 	r.Rule("AGREE-pairing", "builder, prover and verifier of the Merkle tree agree on how a node is paired with its sibling: the builder hashes MHash(left, right) with right = left + 1 and duplicates the last node of an odd level; the verifier puts the path element first when the running index is odd and second when it is even; the prover takes the element before an odd index and the element after an even index (itself when none follows)")
 	r.Rule("AGREE-progression", "the three walks over the levels (size computation, builder, prover) step with the same expressions: next level size = ceil(size/2), next level offset = offset + size; verifier and prover halve the index the same way; the prover (which handles the leaf level before its loop) stops one level size later than the builder")
 	r.Rule("DOM-inlevel", "the prover reads the element after an even index only under the strict test that this element still lies inside the current level (index + 1 < level start + level size, with the level size the walk itself uses)")
+	r.Rule("DEP-offered", "verification recomputes the root from the offered leaf hash: VerifyMerklePath starts its running hash from its hash argument and compares the result with its root argument; VerifyPath hands it GetHash() of the offered node, the offered path and the tree's own root (a verifier that starts from the stored leaf only checks membership, so a path proves every leaf)")
 	r.Rule("AGREE-shape", "ComputeTree and SetTree establish the same three fields from computeSize; a path has levels - 1 elements; the root is the last element of the tree")
 	r.NotDec = append(r.NotDec, "that paths verify for every leaf count and index and do not verify for another leaf (index arithmetic over runtime n, idx: value-level)", "collision resistance of the hash")
 	verify := r.Fn("AGREE-pairing", pkgUtil, "", "VerifyMerklePath")
@@ -147,6 +148,7 @@ func runC19(r *engine.Run) {
 	c19Pairing(r, verify, build, prove)
 	c19Progression(r, verify, build, prove, size)
 	c19Shape(r, build)
+	c19Offered(r, verify)
 }
 
 func mhashCalls(f *ssa.Function) []*ssa.Call {
@@ -465,4 +467,52 @@ func c19Shape(r *engine.Run, build *ssa.Function) {
 		r.Check(good, rule, fn(root)+"|last element", r.P.Pos(root.Pos()), "root = tree[len(tree)-1]", "GetRoot does not return the last element of the tree")
 	}
 	_ = constant.Int
+}
+
+func c19Offered(r *engine.Run, verify *ssa.Function) {
+	const rule = "DEP-offered"
+	// VerifyMerklePath: running hash starts at the hash parameter, result compared with root parameter
+	startOK, cmpOK := false, false
+	var acc *ssa.Phi
+	engine.Instrs(verify, func(in ssa.Instruction) {
+		if ph, ok := in.(*ssa.Phi); ok && engine.IsString(ph.Type()) {
+			for _, e := range ph.Edges {
+				if e == ssa.Value(verify.Params[0]) {
+					startOK = true
+					acc = ph
+				}
+			}
+		}
+	})
+	for _, ret := range engine.Returns(verify) {
+		if b, ok := ret.Results[0].(*ssa.BinOp); ok && b.Op == token.EQL && acc != nil {
+			if (b.X == ssa.Value(acc) && b.Y == ssa.Value(verify.Params[2])) || (b.Y == ssa.Value(acc) && b.X == ssa.Value(verify.Params[2])) {
+				cmpOK = true
+			}
+		}
+	}
+	r.Check(startOK && cmpOK, rule, fn(verify)+"|from offered hash to given root", r.P.Pos(verify.Pos()), "running hash starts at the offered hash and is compared with the given root",
+		fmt.Sprintf("the verifier does not recompute from the offered hash to the given root (starts at offered hash=%v, compares with root=%v)", startOK, cmpOK))
+	vp := r.Fn(rule, pkgUtil, "MerkleTree", "VerifyPath")
+	if vp == nil {
+		return
+	}
+	good := false
+	engine.Instrs(vp, func(in ssa.Instruction) {
+		c, ok := in.(*ssa.Call)
+		if !ok || c.Call.StaticCallee() != verify {
+			return
+		}
+		a0, a1, a2 := c.Call.Args[0], c.Call.Args[1], c.Call.Args[2]
+		okHash := isInvokeOf(a0, "GetHash", isValue(vp.Params[1]))
+		okPath := a1 == ssa.Value(vp.Params[2])
+		okRoot := false
+		if rc, ok := a2.(*ssa.Call); ok {
+			if recv, ok := engine.IsMethodCall(rc, "GetRoot"); ok && recv == ssa.Value(vp.Params[0]) {
+				okRoot = true
+			}
+		}
+		good = okHash && okPath && okRoot
+	})
+	r.Check(good, rule, fn(vp)+"|arguments", r.P.Pos(vp.Pos()), "VerifyMerklePath(offered.GetHash(), offered path, own root)", "VerifyPath does not verify the offered node's own hash with the offered path against the tree's root: the path would prove any leaf of the tree")
 }
